@@ -697,10 +697,10 @@ fn main() {
         "level-BFS under enforcing authorization over (a) transfer/transfer_from/approve/burn/burn_from/mint interleaved with pause/unpause (owner|stranger) and allow/disallow resp. block/unblock (manager|stranger) of every party on the fungible-pausable, fungible-allowlist, fungible-blocklist examples and on wrapper tokens wiring AllowList::burn*/BlockList::burn*; (b) the pausable example; (c) the capped example with caps 0, 5, i128::MAX and mints around the cap incl. overflow; (d) upgrade/migrate sequences on contracts deriving Upgradeable / UpgradeableMigratable. Full post-state predicted and compared after every accepted call",
         |tier: Tier, r: &mut Runner| {
             for kind in [Kind::PauseExample, Kind::AllowExample, Kind::BlockExample, Kind::AllowWrap, Kind::BlockWrap] {
-                r.world(&Gated { kind }, &Bounds::new(tier.pick(4, 5), tier.pick(10, 100)));
+                r.world(&Gated { kind }, &Bounds::new(tier.pick(4, 6), tier.pick(10, 110)));
             }
             r.world(&PausableEx, &Bounds::new(tier.pick(6, 9), 30));
-            r.world(&Capped, &Bounds::new(tier.pick(4, 5), tier.pick(10, 60)));
+            r.world(&Capped, &Bounds::new(tier.pick(5, 7), tier.pick(10, 60)));
             r.world(&Upgr { migratable: true }, &Bounds::new(tier.pick(6, 9), 30));
             r.world(&Upgr { migratable: false }, &Bounds::new(tier.pick(4, 6), 30));
             if let Some(rep) = r.report() {
